@@ -129,5 +129,12 @@ def translate_next_channel(transport_cls):
     out.append("  let chanid := 0")
     out.append(body)
     out.append("")
+    from pv import lib_chanlock
+    sites = lib_chanlock.method_call_sites(transport_cls, "_next_channel")
+    out.append("/-- every call site of `_next_channel` in class Transport: (calling method, inside a `self.lock` region) -/")
+    out.append("def next_channel_sites : List (String × Bool) := [")
+    out.append(",\n".join('  ("%s", %s)' % (c, "true" if l else "false") for c, _, l in sites))
+    out.append("]")
+    out.append("")
     out.append("end PV.Generated.C23")
     return "\n".join(out) + "\n"
